@@ -600,3 +600,124 @@ pub proof fn lemma_unlink(b0: Seq<u8>, b1: Seq<u8>, pm: PieceMgr, w: HeapW, c: i
 }
 
 } // verus!
+
+verus! {
+// ---- reading the size field of any slot -------------------------------------------------------------------------
+pub proof fn lemma_slot_size_decodes(b: Seq<u8>, o: nat, s: SlotW)
+    requires slot_ok(b, o, s)
+    ensures rec_size_ok(b, o as int), rec_size(b, o as int) == s.size, vu64_w(b, o as int) == enc_len(s.size / 8)
+{
+    lemma_slot_elim(b, o, s);
+    lemma_slot_bounds(b, o, s);
+    match s.c {
+        SlotC::Val(v) => { lemma_val_used_decodes(b, o as int, s.size, v); }
+        SlotC::Key(k, vo, nx) => { lemma_key_used_decodes(b, o as int, s.size, k, vo, nx); lemma_key_w(b, o as int, s.size, k, vo, nx); }
+        SlotC::Free(nx) => { lemma_free_decodes(b, o as int, s.size, nx); }
+        SlotC::Cleared => { lemma_cleared_decodes(b, o as int, s.size); lemma_cleared_w(b, o as int, s.size); }
+    }
+}
+pub proof fn lemma_key_w(b: Seq<u8>, o: int, size: nat, key: Seq<u8>, voff: nat, next: nat)
+    requires key_used_at(b, o, size, key, voff, next)
+    ensures vu64_w(b, o) == enc_len(size / 8)
+{
+    let img = key_image(size, key, voff, next);
+    axiom_vu64(size / 8);
+    let n1 = enc_len(size / 8) as int;
+    assert(img.len() == size);
+    assert(rd(img, 0, n1) =~= vu64_enc(size / 8));
+    assert(vu64_at(img, 0, size / 8));
+    lemma_vu64_at_prefix(img, b, o, size as int, 0, size / 8);
+    lemma_vu64_at(b, o, size / 8);
+}
+pub proof fn lemma_cleared_w(b: Seq<u8>, o: int, size: nat)
+    requires cleared_at(b, o, size)
+    ensures vu64_w(b, o) == enc_len(size / 8)
+{
+    let img = cleared_image(size);
+    axiom_vu64(size / 8);
+    let n1 = enc_len(size / 8) as int;
+    assert(n1 <= 5);
+    assert(img.len() == size);
+    assert(rd(img, 0, n1) =~= vu64_enc(size / 8));
+    assert(vu64_at(img, 0, size / 8));
+    lemma_vu64_at_prefix(img, b, o, size as int, 0, size / 8);
+    lemma_vu64_at(b, o, size / 8);
+}
+
+/// rewriting one slot in place (same size, new non-free content)
+pub proof fn lemma_set(b0: Seq<u8>, b1: Seq<u8>, pm: PieceMgr, w: HeapW, o: nat, c: SlotC)
+    requires heap_ok(b0, pm, w), w.slots.dom().contains(o), !(w.slots[o].c is Free), !(c is Free),
+        frame3(b0, b1, o as int, w.slots[o].size as int, o as int, w.slots[o].size as int, -8),
+        slot_ok(b1, o, SlotW { size: w.slots[o].size, c: c }),
+    ensures heap_ok(b1, pm, w_set(w, o, SlotW { size: w.slots[o].size, c: c }))
+{
+    let w1 = w_set(w, o, SlotW { size: w.slots[o].size, c: c });
+    lemma_frame3_others(b0, b1, pm, w, o, o, -8, 0);
+    assert(w1.slots.dom() =~= w.slots.dom());
+    lemma_tiling_same_sizes(b0.len(), w.slots, w1.slots);
+    assert forall|o2: nat| #[trigger] w1.slots.dom().contains(o2) implies slot_ok(b1, o2, w1.slots[o2]) by {
+        if o2 != o { assert(w.slots.dom().contains(o2)); }
+    }
+    assert forall|c2: int| 0 <= c2 < 16 implies #[trigger] head_at(pm, b1, c2) == first(w1.lists[c2]) by {
+        assert(head_at(pm, b0, c2) == first(w.lists[c2]));
+    }
+    assert forall|c2: int| 0 <= c2 < 16 implies #[trigger] list_ok(w1.slots, w1.lists[c2], c2) by {
+        assert(list_ok(w.slots, w.lists[c2], c2));
+        lemma_not_member(w.slots, w.lists[c2], c2, o);
+        let l2 = w.lists[c2];
+        assert forall|i: int| 0 <= i < l2.len() implies #[trigger] w1.slots.dom().contains(l2[i]) && w1.slots[l2[i]] == w.slots[l2[i]] by {
+            lemma_list_member(w.slots, l2, c2, i);
+            assert(l2.contains(l2[i]));
+        }
+        lemma_list_untouched(w.slots, w1.slots, l2, c2);
+    }
+    assert(free_members(w1)) by {
+        reveal(free_members);
+        assert forall|o2: nat| #[trigger] w1.slots.dom().contains(o2) && w1.slots[o2].c is Free implies w1.lists[class_idx(w1.slots[o2].size)].contains(o2) by {
+            assert(w.slots.dom().contains(o2));
+        }
+    }
+}
+
+/// appending a new slot at the end of the file
+pub proof fn lemma_append(b0: Seq<u8>, b1: Seq<u8>, pm: PieceMgr, w: HeapW, s: SlotW)
+    requires heap_ok(b0, pm, w), !(s.c is Free), b1.len() == b0.len() + s.size, b1.len() <= 0x3fff_ffff_ffff_ffff,
+        forall|i: int| 0 <= i < b0.len() ==> #[trigger] b1[i] == b0[i],
+        slot_ok(b1, b0.len(), s),
+    ensures heap_ok(b1, pm, w_set(w, b0.len(), s)), !w.slots.dom().contains(b0.len())
+{
+    let o = b0.len();
+    let w1 = w_set(w, o, s);
+    lemma_slot_bounds(b1, o, s);
+    lemma_tiling_append(b0.len(), w.slots, s);
+    lemma_tiling_len(b0.len(), w.slots);
+    assert forall|o2: nat| #[trigger] w1.slots.dom().contains(o2) implies slot_ok(b1, o2, w1.slots[o2]) by {
+        if o2 != o {
+            assert(w.slots.dom().contains(o2));
+            assert(slot_ok(b0, o2, w.slots[o2]));
+            lemma_slot_bounds(b0, o2, w.slots[o2]);
+            lemma_rd_same(b0, b1, o2 as int, w.slots[o2].size as int);
+            lemma_slot_frame(b0, b1, o2, w.slots[o2]);
+        }
+    }
+    assert forall|c2: int| 0 <= c2 < 16 implies #[trigger] head_at(pm, b1, c2) == first(w1.lists[c2]) by {
+        assert(head_at(pm, b0, c2) == first(w.lists[c2]));
+        lemma_rd_same(b0, b1, pm.free_list_offset@[0] as int + 8 * c2, 8);
+    }
+    assert forall|c2: int| 0 <= c2 < 16 implies #[trigger] list_ok(w1.slots, w1.lists[c2], c2) by {
+        assert(list_ok(w.slots, w.lists[c2], c2));
+        let l2 = w.lists[c2];
+        assert forall|i: int| 0 <= i < l2.len() implies #[trigger] w1.slots.dom().contains(l2[i]) && w1.slots[l2[i]] == w.slots[l2[i]] by {
+            lemma_list_member(w.slots, l2, c2, i);
+        }
+        lemma_list_untouched(w.slots, w1.slots, l2, c2);
+    }
+    assert(free_members(w1)) by {
+        reveal(free_members);
+        assert forall|o2: nat| #[trigger] w1.slots.dom().contains(o2) && w1.slots[o2].c is Free implies w1.lists[class_idx(w1.slots[o2].size)].contains(o2) by {
+            assert(w.slots.dom().contains(o2));
+        }
+    }
+}
+
+} // verus!
